@@ -1287,12 +1287,23 @@ def r2_nstep(ck, repo, nf):
         elif isinstance(ts, ast.Compare) and len(ts.ops) == 1 and isinstance(ts.ops[0], ast.Gt) and isinstance(ts.comparators[0], ast.Name):
             counter_stop = (ts.comparators[0].id, ts.left)
         else:
-            raise AnalysisError(f"{q}: loop condition `{short(ts, 50)}` (unrecognised form)")
+            # `while True:` whose first statement is the only exit `if not (t < H): break` goes on exactly while `t < H` holds at the top
+            c_, rel_, bound_ = _while_exit(q, lp)
+            if rel_ != "lt":
+                raise AnalysisError(f"{q}: loop condition `{short(ts, 50)}` goes on while `{c_}` {rel_} `{short(bound_, 30)}` (unrecognised form)")
+            counter_stop = (c_, bound_)
     rets = [n for n in cfg.nodes if n.kind == "stmt" and isinstance(n.ast, ast.Return) and n.ast.value is not None]
     ck.need(len(rets) == 1, f"{q}: expected one return")
     rv = rets[0].ast.value
-    ck.need(isinstance(rv, ast.Tuple) and len(rv.elts) == 2 and all(isinstance(x, ast.Name) for x in rv.elts), f"{q}: must return (n_step_return, discount)")
-    G, C = rv.elts[0].id, rv.elts[1].id
+    # the result carries (n_step_return, discount) in this order: a tuple display, or a freshly built plain record (NamedTuple / dataclass)
+    # whose fields in constructor order are these two - callers unpack it by position or read the fields
+    rsc = Scope(cfg, mi, env, q)
+    carried_names = {x.id for x in ast.walk(lp) if isinstance(x, ast.Name) and isinstance(x.ctx, ast.Store)}
+    rsc.opaque_names |= carried_names
+    comps, _fields = _components(nf, nf.poly(rv, rsc, rets[0].id))
+    if comps is None or len(comps) != 2 or any(x.single_atom() not in carried_names for x in comps):
+        raise AnalysisError(f"{q}: must return (n_step_return, discount), returns `{short(rv, 60)}` (unrecognised form)")
+    G, C = comps[0].single_atom(), comps[1].single_atom()
     for nm in (G, C):
         if not any(d.node in cfg.loop_body_nodes(hdr) for d in cfg.defs_of(rets[0].id, nm)):
             raise AnalysisError(f"{q}: the returned `{nm}` is not the value carried by the loop (unrecognised form)")
@@ -1317,6 +1328,12 @@ def r2_nstep(ck, repo, nf):
     both = wantG.atoms() | wantC.atoms()
     for nm in (G, C):
         pe.env[nm] = _index_distributed(nf, pe.env[nm], (PR, PD), (PG,))
+    if _fields is not None:
+        # a record is also read by field name: when the two recurrences hold with the fields taken in the other order, which field is
+        # the return is decided by the readers of the record, not by the constructor order
+        swap = {"G": env0[C], "c": env0[G]}
+        if pe.env[C].subst(swap) == wantG and pe.env[G].subst(swap) == wantC:
+            raise AnalysisError(f"{q}: the returned record `{short(rv, 60)}` carries (discount, n_step_return) in constructor order (unrecognised form)")
     _decide(ck, "R2-n-step", q, "return-update", pe.env[G], wantG, f"G' = {pe.env[G].canon()[:120]}", f"expected G + c*r_t (with the discount *before* this step), difference `{(pe.env[G] - wantG).canon()[:120]}`", where, extra=(PG, PD), atoms=both)
     _decide(ck, "R2-n-step", q, "discount-update", pe.env[C], wantC, f"c' = {pe.env[C].canon()[:120]}", f"expected c*gamma*(1 - d_t), difference `{(pe.env[C] - wantC).canon()[:120]}`", where, extra=(PR,), atoms=both)
     # the loop runs t = 0 .. H-1: range(H), range(0, H), range(0, H, 1) with H the second axis of either (B, H) array
@@ -1581,8 +1598,14 @@ def r3_rtg(ck, repo, nf):
     # the recorded list: the one list grown in the loop; the accumulator: the one variable the loop body both reads from the previous
     # iteration and rebinds (defined before the loop and in it)
     apps = [c for c in ast.walk(lp) if isinstance(c, ast.Call) and isinstance(c.func, ast.Attribute) and c.func.attr == "append" and isinstance(c.func.value, ast.Name)]
-    ck.need(len(apps) == 1 and len(apps[0].args) == 1 and not apps[0].keywords, f"{q}: expected one append of the accumulator")
-    lst = apps[0].func.value.id
+    # ... or the one sequence whose slots the loop fills (`out[t] = acc`): the value of step t recorded at position t needs no reversal
+    slots = [x for x in ast.walk(lp) if isinstance(x, ast.Subscript) and isinstance(x.ctx, ast.Store)]
+    if not apps and len(slots) == 1 and isinstance(slots[0].value, ast.Name) and slots[0].value.id not in env:
+        slot_mode = True
+    else:
+        slot_mode = False
+        ck.need(len(apps) == 1 and len(apps[0].args) == 1 and not apps[0].keywords and not slots, f"{q}: expected one append of the accumulator")
+    lst = slots[0].value.id if slot_mode else apps[0].func.value.id
     carried = sorted({d.name for nid in inside for d in cfg.nodes[nid].defs if d.name not in (r, lst) and any(d0.node not in inside and d0.node != hdr for d0 in cfg.defs_of(hdr, d.name))})
     if len(carried) != 1:
         raise AnalysisError(f"{q}: the loop carries {carried} from one step to the next, expected one accumulator (unrecognised form)")
@@ -1612,11 +1635,20 @@ def r3_rtg(ck, repo, nf):
     want = nf.poly(parse_expr(f"{PG} * acc + elem__"), Scope(None, mi, {**env, "acc": env0[acc], "elem__": elem}, q), None)
     _decide(ck, "R3-reward-to-go", q, "recurrence", pe.env[acc], want, f"acc' = {pe.env[acc].canon()[:100]}", f"expected gamma*acc + r, difference `{(pe.env[acc] - want).canon()[:100]}`", where, atoms=())
     # the value recorded at each step: the argument of the append as the path evaluation saw it
-    appended = [v for (nid, tgt, v) in pe.log if tgt == "<expr>" and (nf.meta.get(v.single_atom() or "", {}).get("fn") or "") == f"{lst}.append" and len(nf.meta[v.single_atom()].get("args", [])) == 1]
-    if len(appended) != 1:
-        raise AnalysisError(f"{q}: the value appended to `{lst}` was not read (unrecognised form)")
-    rec = nf.meta[appended[0].single_atom()]["args"][0]
-    _decide(ck, "R3-reward-to-go", q, "records-updated-value", rec, want, f"{appended[0].canon()[:100]}", "each step must record the accumulator after adding that step's reward", where, atoms=())
+    if slot_mode:
+        # the slot written by one iteration is the position of the reward that iteration reads: the records are in time order
+        effs = [e_ for e_ in pe.effects if e_[1] == lst]
+        if len(effs) != 1 or len(pe.effects) != 1 or offset is None or effs[0][2] is None:
+            raise AnalysisError(f"{q}: the slot of `{lst}` written by one iteration was not read (unrecognised form)")
+        if effs[0][2] != (t0 + Poly.const(offset)).canon():
+            raise AnalysisError(f"{q}: one iteration reads `{elem.canon()}` and records at `{lst}[{effs[0][2]}]` (unrecognised form)")
+        rec, rec_shown = effs[0][3], f"{lst}[{effs[0][2]}] = {effs[0][3].canon()[:80]}"
+    else:
+        appended = [v for (nid, tgt, v) in pe.log if tgt == "<expr>" and (nf.meta.get(v.single_atom() or "", {}).get("fn") or "") == f"{lst}.append" and len(nf.meta[v.single_atom()].get("args", [])) == 1]
+        if len(appended) != 1:
+            raise AnalysisError(f"{q}: the value appended to `{lst}` was not read (unrecognised form)")
+        rec, rec_shown = nf.meta[appended[0].single_atom()]["args"][0], f"{appended[0].canon()[:100]}"
+    _decide(ck, "R3-reward-to-go", q, "records-updated-value", rec, want, rec_shown, "each step must record the accumulator after adding that step's reward", where, atoms=())
     # direction of the iteration: an odd number of reversals between the rewards and what the loop runs over
     if o_ is not None:
         ok = o_[0] == 1
@@ -1667,8 +1699,29 @@ def r3_rtg(ck, repo, nf):
     inplace = [s_ for s_ in ast.walk(fn) if isinstance(s_, ast.Expr) and isinstance(s_.value, ast.Call) and isinstance(s_.value.func, ast.Attribute) and s_.value.func.attr in ("reverse", "sort") and dotted(s_.value.func.value) == lst]
     if any(s_.value.func.attr != "reverse" or s_.value.args or s_.value.keywords or s_ not in fn.body or fn.body.index(s_) < fn.body.index(lp) for s_ in inplace):
         raise AnalysisError(f"{q}: `{lst}` is reordered in place in a way this rule does not read (unrecognised form)")
-    ok = (o_[0] + len(inplace)) % 2 == 1
-    ck.ob("R3-reward-to-go", q, "result-reversed", ok, f"return {txt}" + (f" after {lst}.reverse()" if inplace else ""), "" if ok else "the recorded values must be reversed back into time order", loc(mi, rets[0].ast))
+    if slot_mode:
+        # one slot per reward: the sequence is made before the loop with the length of the rewards ([x] * n, zeros / empty (n), *_like(rewards))
+        ds = [d for d in cfg.defs_of(hdr, lst) if d.node not in inside and d.node != hdr]
+        if len(ds) != 1 or ds[0].kind != "assign" or ds[0].value is None or any(d.name == lst for nid in inside for d in cfg.nodes[nid].defs):
+            raise AnalysisError(f"{q}: where the slots of `{lst}` come from (unrecognised form)")
+        v_, count = ds[0].value, None
+        isc_ = Scope(cfg, mi, env, q)
+        length_ = nf.poly(parse_expr(f"len({RW})"), Scope(None, mi, env, q), None)
+        if isinstance(v_, ast.BinOp) and isinstance(v_.op, ast.Mult) and sum(isinstance(x_, ast.List) and len(x_.elts) == 1 and not isinstance(x_.elts[0], ast.Starred) for x_ in (v_.left, v_.right)) == 1:
+            count = nf.poly(v_.right if isinstance(v_.left, ast.List) else v_.left, isc_, ds[0].node)
+        elif isinstance(v_, ast.Call) and len(v_.args) == 1 and not v_.keywords and not isinstance(v_.args[0], ast.Starred):
+            f_ = ((repo.resolve_expr(mi, v_.func) if isinstance(v_.func, (ast.Name, ast.Attribute)) else None) or "").split(".")
+            if f_[0] in ("numpy", "jax") and f_[-1] in ("zeros", "empty", "ones"):
+                a_ = v_.args[0].elts[0] if isinstance(v_.args[0], (ast.Tuple, ast.List)) and len(v_.args[0].elts) == 1 else v_.args[0]
+                count = nf.poly(a_, isc_, ds[0].node)
+            elif f_[0] in ("numpy", "jax") and f_[-1] in ("zeros_like", "empty_like", "ones_like") and nf.poly(v_.args[0], isc_, ds[0].node).canon() == RW:
+                count = length_
+        if count is None or _unread(count) or count.elems is not None or not (count - length_).is_const():
+            raise AnalysisError(f"{q}: the slots `{lst} = {short(v_, 50)}` (unrecognised form)")
+        ok = count == length_
+        ck.ob("R3-reward-to-go", q, "one-slot-per-step", ok, f"{lst} = {short(v_, 60)}", "" if ok else "the result must have one entry per reward of the episode", loc(mi, v_))
+    ok = (o_[0] + len(inplace)) % 2 == (0 if slot_mode else 1)
+    ck.ob("R3-reward-to-go", q, "result-reversed", ok, f"return {txt}" + (f" after {lst}.reverse()" if inplace else ""), "" if ok else ("the values recorded at their own time step are in time order already: they must not be turned round" if slot_mode else "the recorded values must be reversed back into time order"), loc(mi, rets[0].ast))
     ds = [d for d in cfg.defs_of(hdr, acc) if d.node not in inside and d.node != hdr]
     if len(ds) != 1 or ds[0].kind != "assign":
         raise AnalysisError(f"{q}: initial value of `{acc}` is not a single assignment before the loop (unrecognised form)")
@@ -1851,7 +1904,19 @@ def r4_callsites(ck, repo, nf):
                     p = getattr(p, "_parent", None)
                 if p is fn:
                     sites.append((qual, fn, mi, c))
-    ck.floor("compute_gae-call-sites", len(sites), 2)
+    # compute_gae handed to vmap itself, without a wrapper: `vmap(compute_gae, in_axes=...)` in a routine or as a module-level constant
+    maps = _direct_maps(repo, gq)
+
+    def never_applied(qual, fn):
+        """A nested wrapper whose name is not used anywhere in the routine that holds it: no data reaches compute_gae through it."""
+        if "<locals>" not in qual or fn.decorator_list:
+            return False
+        ofn_ = repo.func(qual.split(".<locals>.")[0])
+        return not any(isinstance(x, ast.Name) and x.id == fn.name and not any(a_ is fn for a_ in _ancestors(x)) for x in ast.walk(ofn_))
+    sites = [s_ for s_ in sites if not never_applied(s_[0], s_[1])]
+    ck.floor("compute_gae-call-sites", len(sites) + len(maps), 2)
+    for vm_mi, vm in maps:
+        _direct_mapped_site(ck, repo, nf, vm_mi, vm, gfn, gps)
     for qual, fn, mi, c in sites:
         where = loc(mi, c)
         if any(isinstance(a_, ast.Starred) for a_ in c.args) or any(k_.arg is None for k_ in c.keywords) or len(gps) < 6:
@@ -1867,6 +1932,80 @@ def r4_callsites(ck, repo, nf):
             ck.ob("R4-per-trajectory", qual, "no-merged-env-axis", ok, f"`{short(c, 80)}`",
                   "" if ok else f"the arguments are the environment-major *flattened* rollout ({merged}): the reverse scan runs across environment boundaries, so an "
                                 "environment's advantages depend on the next environment's rewards", where)
+
+
+_VMAPS = ("jax.vmap", "flax.nnx.vmap")
+
+
+def _direct_maps(repo, gq):
+    """Every `vmap(compute_gae, ...)` of the package: (module, the vmap call)."""
+    out = []
+    for mi in repo.modules.values():
+        for x in ast.walk(mi.tree):
+            if not (isinstance(x, ast.Call) and isinstance(x.func, (ast.Name, ast.Attribute)) and repo.resolve_expr(mi, x.func) in _VMAPS):
+                continue
+            f = x.args[0] if x.args else next((k_.value for k_ in x.keywords if k_.arg in ("fun", "f")), None)
+            if isinstance(f, (ast.Name, ast.Attribute)) and repo.resolve_expr(mi, f) == gq:
+                out.append((mi, x))
+    return out
+
+
+def _direct_mapped_site(ck, repo, nf, vm_mi, vm, gfn, gps):
+    """compute_gae mapped with vmap as it stands: the mapped function's parameters are those of compute_gae, so the four sequences, gamma and
+    lambda are what the one application passes at their positions; the same checks as for a mapped wrapper."""
+    if any(isinstance(a_, ast.Starred) for a_ in vm.args) or any(k_.arg is None for k_ in vm.keywords) or len(gps) < 6:
+        raise AnalysisError(f"{vm_mi.name}: `{short(vm, 70)}` passes packed arguments (unrecognised form)")
+    apps = []
+    for qual, fn, mi in repo.all_functions():
+        cfg = None
+        for x in ast.walk(fn):
+            if not isinstance(x, ast.Call) or next((a_ for a_ in _ancestors(x) if isinstance(a_, (ast.FunctionDef, ast.AsyncFunctionDef, ast.Lambda))), None) is not fn:
+                continue
+            hit = x.func is vm
+            if not hit and isinstance(x.func, ast.Name):
+                cfg = cfg or nf.cfg_of(fn)
+                try:
+                    ds = cfg.defs_of(cfg.node_of(x).id, x.func.id)
+                except Exception:
+                    ds = []
+                hit = len(ds) == 1 and ds[0].kind == "assign" and ds[0].value is vm
+                local = bool(ds)
+            else:
+                local = False
+            if not hit and not local and isinstance(x.func, (ast.Name, ast.Attribute)):
+                # a module-level constant holding the mapped function
+                r_ = repo.resolve_expr(mi, x.func)
+                try:
+                    node = repo.lookup(r_)[1] if r_ and r_.startswith(repo.PKG + ".") else None
+                except AnalysisError:
+                    node = None
+                hit = isinstance(node, (ast.Assign, ast.AnnAssign)) and node.value is vm
+            if hit:
+                apps.append((qual, fn, mi, x))
+    if len(apps) != 1 or "<locals>" in apps[0][0]:
+        raise AnalysisError(f"{vm_mi.name}: `{short(vm, 70)}` is applied {len(apps)} times (unrecognised form)")
+    qual, fn, mi, app = apps[0]
+    where = loc(mi, app)
+    if any(isinstance(a_, ast.Starred) for a_ in app.args) or app.keywords or len(app.args) < 6 or any(isinstance(a_, (ast.For, ast.While, ast.ListComp, ast.GeneratorExp, ast.DictComp, ast.SetComp)) for a_ in _ancestors(app)):
+        raise AnalysisError(f"{qual}: `{short(app, 70)}` applies the mapped compute_gae with keyword / packed arguments or in a loop (unrecognised form)")
+    ocfg = nf.cfg_of(fn)
+    afn, anchor_q, oenv = _anchored(repo, nf, fn, qual)
+    osc = Scope(ocfg, mi, oenv, qual)
+    op = positional_params(afn)
+    if len(op) < 6:
+        raise AnalysisError(f"{anchor_q}: signature changed (anchor vanished)")
+    n = ocfg.node_of(app)
+    inside = any(a_ is fn for a_ in _ancestors(vm))
+    vm_at, vm_sc = (ocfg.node_of(vm).id, osc) if inside else (None, Scope(None, vm_mi, {}, vm_mi.name))
+    axes_e = vm.args[1] if len(vm.args) > 1 else next((k_.value for k_ in vm.keywords if k_.arg == "in_axes"), None)
+    axes = _axes_of(nf, axes_e, vm_sc, vm_at)
+    if not isinstance(axes, list) or len(axes) != len(app.args) or axes[4:] != [None] * (len(axes) - 4):
+        raise AnalysisError(f"{qual}: in_axes of `{short(vm, 70)}`: gamma and lambda are not shared by all environments (unrecognised form)")
+    ck.ob("R4-per-trajectory", anchor_q, "vmapped-per-environment", True, f"{short(vm)}", "", where)
+
+    def g_of():
+        return [nf.poly(app.args[4], osc, n.id).canon(), nf.poly(app.args[5], osc, n.id).canon()]
+    _mapped_application(ck, repo, nf, qual, fn, ocfg, mi, anchor_q, osc, (op[0], op[1], op[2], op[4], op[5]), vm, vm_at, vm_sc, n, app, list(gps), list(gps[:4]), g_of, where, short(app, 70), "compute_gae")
 
 
 def _vmapped_site(ck, repo, nf, qual, fn, mi, c, gfn, gps):
@@ -1928,10 +2067,6 @@ def _vmapped_site(ck, repo, nf, qual, fn, mi, c, gfn, gps):
     n, app = apps[0]
     if any(isinstance(a_, ast.Starred) for a_ in app.args) or app.keywords:
         raise AnalysisError(f"{outer_q}: `{short(app, 70)}` passes keyword / packed arguments to the mapped function (unrecognised form)")
-    axes_e = vm.args[1] if len(vm.args) > 1 else next((k_.value for k_ in vm.keywords if k_.arg == "in_axes"), None)
-    axes = _axes_of(nf, axes_e, osc, ocfg.node_of(vm).id)
-    if axes == "?" or (isinstance(axes, list) and len(axes) != len(app.args)):
-        raise AnalysisError(f"{outer_q}: in_axes of `{short(vm, 70)}` was not read (unrecognised form)")
     # role -> wrapper parameter (binding of the inner call by the signature of compute_gae) -> argument of the mapped call
     ip = positional_params(fn)
     bnd = bind_call(gfn, c)
@@ -1945,6 +2080,28 @@ def _vmapped_site(ck, repo, nf, qual, fn, mi, c, gfn, gps):
     ck.ob("R4-per-trajectory", anchor_q, "forwarding", ok, f"compute_gae({', '.join(f'{p_}={f_}' for p_, f_ in zip(gps[:4], fwd))})", "" if ok else "rewards, values, next values and terminations must each be forwarded to their own role (one sequence is used in two roles)", where)
     if not ok:
         return
+    def g_of():
+        # gamma / lambda of the routine, in their roles
+        isc = Scope(nf.cfg_of(fn), mi, {**_env(fn), **{k_: v_ for k_, v_ in closure_env(nf, ofn, fn, mi, oenv, outer_q).items() if k_ not in ip}, **{k_: v_ for k_, v_ in oenv.items() if k_ not in ip and k_ not in rebound}}, qual)
+        g_e = [bnd.get(p_) for p_ in gps[4:6]]
+        if any(x_ is None for x_ in g_e):
+            raise AnalysisError(f"{outer_q}: `{short(c, 70)}` does not pass gamma / lambda (unrecognised form)")
+        at_c = isc.cfg.node_of(c).id
+        g = [nf.poly(x_, isc, at_c).canon() for x_ in g_e]
+        # a value the wrapper receives as a parameter is what the mapped call passes for it
+        g = [(nf.poly(app.args[ip.index(x_)], osc, n.id).canon() if ip.index(x_) < len(app.args) else x_) if x_ in ip else x_ for x_ in g]
+        return g
+    _mapped_application(ck, repo, nf, outer_q, ofn, ocfg, mi, anchor_q, osc, (RB, VF, LO, G_OUT, L_OUT), vm, ocfg.node_of(vm).id, osc, n, app, ip, fwd, g_of, where, short(c, 70), fn.name)
+
+
+def _mapped_application(ck, repo, nf, outer_q, ofn, ocfg, mi, anchor_q, osc, roles, vm, vm_at, vm_sc, n, app, ip, fwd, g_of, where, call_shown, mapped_name):
+    """The checks on one application of the GAE mapped with vmap: ``ip`` are the parameters of the mapped function, ``fwd`` those of them that
+    reach the four sequences of compute_gae, ``g_of()`` reads what reaches gamma and lambda."""
+    RB, VF, LO, G_OUT, L_OUT = roles
+    axes_e = vm.args[1] if len(vm.args) > 1 else next((k_.value for k_ in vm.keywords if k_.arg == "in_axes"), None)
+    axes = _axes_of(nf, axes_e, vm_sc, vm_at)
+    if axes == "?" or (isinstance(axes, list) and len(axes) != len(app.args)):
+        raise AnalysisError(f"{outer_q}: in_axes of `{short(vm, 70)}` was not read (unrecognised form)")
     idx = [ip.index(f_) for f_ in fwd]
     if any(i_ >= len(app.args) for i_ in idx):
         raise AnalysisError(f"{outer_q}: `{short(app, 70)}` does not pass the four sequences (unrecognised form)")
@@ -1957,18 +2114,10 @@ def _vmapped_site(ck, repo, nf, qual, fn, mi, c, gfn, gps):
     if not ok and any(t_ in v_.canon() for v_ in vals for t_ in _LAYOUT_OPS):
         raise AnalysisError(f"{outer_q}: in_axes={role_axes} on re-laid-out arrays `{short(app, 70)}` (unrecognised form)")
     ck.ob("R4-per-trajectory", anchor_q, "vmap-axis", ok, f"in_axes={tuple(role_axes)}", "" if ok else "all four arguments must be mapped over axis 1 (the environment axis of (T, N) arrays)", loc(mi, vm))
-    # gamma / lambda of the routine, in their roles
-    isc = Scope(nf.cfg_of(fn), mi, {**_env(fn), **{k_: v_ for k_, v_ in closure_env(nf, ofn, fn, mi, oenv, outer_q).items() if k_ not in ip}, **{k_: v_ for k_, v_ in oenv.items() if k_ not in ip and k_ not in rebound}}, qual)
-    g_e = [bnd.get(p_) for p_ in gps[4:6]]
-    if any(x_ is None for x_ in g_e):
-        raise AnalysisError(f"{outer_q}: `{short(c, 70)}` does not pass gamma / lambda (unrecognised form)")
-    at_c = isc.cfg.node_of(c).id
-    g = [nf.poly(x_, isc, at_c).canon() for x_ in g_e]
-    # a value the wrapper receives as a parameter is what the mapped call passes for it
-    g = [(nf.poly(app.args[ip.index(x_)], osc, n.id).canon() if ip.index(x_) < len(app.args) else x_) if x_ in ip else x_ for x_ in g]
+    g = g_of()
     ok = g == [G_OUT, L_OUT]
     if not ok and not set(g) <= {G_OUT, L_OUT}:
-        raise AnalysisError(f"{outer_q}: `{short(c, 70)}` passes gamma <- {g[0][:30]}, lambda <- {g[1][:30]} (unrecognised form)")
+        raise AnalysisError(f"{outer_q}: `{call_shown}` passes gamma <- {g[0][:30]}, lambda <- {g[1][:30]} (unrecognised form)")
     ck.ob("R4-per-trajectory", anchor_q, "gamma-lambda", ok, f"gamma <- {g[0]}, lmbda <- {g[1]}", "" if ok else "gamma and lambda must be passed in their roles (not swapped, not the same value twice)", where)
     # what each role receives: the buffer's rewards / terminations, the critic's values as (T, N), the values shifted by one step
     kinds = []
@@ -2537,15 +2686,20 @@ def r2_call_roles(ck, repo, nf):
     rq = "rl_blox.blox.return_estimates.discounted_n_step_return"
     rfn = repo.func(rq)
     calls = [c for c in ast.walk(fn) if isinstance(c, ast.Call) and isinstance(c.func, (ast.Name, ast.Attribute)) and repo.resolve_expr(fn._module, c.func) == rq]
-    if len(calls) != 1:
+    if not calls:
         raise AnalysisError(f"{q}: expected one call of discounted_n_step_return, found {len(calls)}")
-    if any(isinstance(a_, ast.Starred) for a_ in calls[0].args) or any(k_.arg is None for k_ in calls[0].keywords):
-        raise AnalysisError(f"{q}: `{short(calls[0], 70)}` passes packed arguments (unrecognised form)")
-    b = bind_call(rfn, calls[0])
     cfgq = nf.cfg_of(fn)
     scq = Scope(cfgq, fn._module, {p: Poly.atom(p, {p}, {p}) for p in param_names(fn)}, q)
-    atq = cfgq.node_of(calls[0]).id
-    got = {k: (nf.poly(v, scq, atq).canon() if v is not None and not isinstance(v, list) else None) for k, v in b.items()}
+    gots = []
+    for c_ in calls:
+        if any(isinstance(a_, ast.Starred) for a_ in c_.args) or any(k_.arg is None for k_ in c_.keywords):
+            raise AnalysisError(f"{q}: `{short(c_, 70)}` passes packed arguments (unrecognised form)")
+        atq = cfgq.node_of(c_).id
+        gots.append({k: (nf.poly(v, scq, atq).canon() if v is not None and not isinstance(v, list) else None) for k, v in bind_call(rfn, c_).items()})
+    # the same call written (or, after a helper that reads two fields of its result was expanded in place, repeated) several times is one call
+    if any(g_ != gots[0] for g_ in gots[1:]):
+        raise AnalysisError(f"{q}: expected one call of discounted_n_step_return, found {len(calls)} with different arguments (unrecognised form)")
+    got = gots[0]
     pr = positional_params(rfn)
     pq = positional_params(fn)
     if len(pr) < 3 or len(pq) < 7 or any(got.get(p_) is None for p_ in pr[:3]):
@@ -2662,6 +2816,22 @@ MUTANTS = [
                ("        # Update termination mask\n        prev_not_done = not_done[:, t] * prev_not_done\n", ""),
                ("            (pred_zs_t, prev_not_done),\n            dynamics_loss,", "            pred_zs_t,\n            dynamics_loss,"),
                ("        (pred_zs_t, prev_not_done),\n        encoder,\n        the_bins,\n        batch,\n        next_zs,\n        not_done,", "        pred_zs_t,\n        encoder,\n        the_bins,\n        batch,\n        next_zs,\n        mask_per_step,")]},
+    # --- round 2: forms read anew (while-True counting loop and record result of the n-step return; slots filled by index in the reward-to-go; compute_gae handed to vmap itself)
+    {"id": "c07-nstep-while-true-leaves-last-step", "file": _R, "rule": "R2", "find": _NSTEP_LOOP,
+     "replace": "    n_step_return = jnp.zeros(reward.shape[0], dtype=jnp.float32)\n    discount = jnp.ones(reward.shape[0], dtype=jnp.float32)\n    k = 0\n    while True:\n        if k >= reward.shape[1] - 1:\n            break\n        n_step_return += discount * reward[:, k]\n        discount *= gamma * (1 - terminated[:, k])\n        k += 1\n    return n_step_return, discount"},
+    {"id": "c07-nstep-record-return-uses-new-discount", "file": _R, "rule": "R2",
+     "edits": [("import jax.numpy as jnp\n", "from typing import NamedTuple\n\nimport jax.numpy as jnp\n\n\nclass TruncatedReturn(NamedTuple):\n    value: jnp.ndarray\n    bootstrap_discount: jnp.ndarray\n"),
+               ("        n_step_return += discount * reward[:, t]\n        discount *= gamma * (1 - terminated[:, t])\n    return n_step_return, discount", "        discount *= gamma * (1 - terminated[:, t])\n        n_step_return += discount * reward[:, t]\n    return TruncatedReturn(value=n_step_return, bootstrap_discount=discount)")]},
+    {"id": "c07-rtg-slots-accumulated-forwards", "file": _RE, "rule": "R3", "find": _RTG_LOOP,
+     "replace": "    out = [0.0] * len(rewards)\n    running = 0.0\n    i = 0\n    while i < len(rewards):\n        running = gamma * running + rewards[i]\n        out[i] = running\n        i += 1\n    return np.array(out)"},
+    {"id": "c07-rtg-slots-turned-round", "file": _RE, "rule": "R3", "find": _RTG_LOOP,
+     "replace": "    out = [0.0] * len(rewards)\n    running = 0.0\n    for i in reversed(range(len(rewards))):\n        running = gamma * running + rewards[i]\n        out[i] = running\n    return np.array(out[::-1])"},
+    {"id": "c07-rtg-slots-one-too-many", "file": _RE, "rule": "R3", "find": _RTG_LOOP,
+     "replace": "    out = np.zeros(len(rewards) + 1)\n    running = 0.0\n    for i in reversed(range(len(rewards))):\n        running = gamma * running + rewards[i]\n        out[i] = running\n    return np.array(out)"},
+    {"id": "c07-a2c-direct-vmap-over-time", "file": _A2, "rule": "R4", "find": "    gae_result = jax.vmap(get_gae_for_env, in_axes=(1, 1, 1, 1))(\n        rewards, values, all_next_values, terminations\n    )",
+     "replace": "    gae_result = jax.vmap(compute_gae, in_axes=(0, 0, 0, 0, None, None))(\n        rewards, values, all_next_values, terminations, gamma, lmbda\n    )"},
+    {"id": "c07-a2c-direct-vmap-lambda-for-gamma", "file": _A2, "rule": "R4", "find": "    gae_result = jax.vmap(get_gae_for_env, in_axes=(1, 1, 1, 1))(\n        rewards, values, all_next_values, terminations\n    )",
+     "replace": "    per_env_gae = jax.vmap(compute_gae, in_axes=(1, 1, 1, 1, None, None))\n    gae_result = per_env_gae(rewards, values, all_next_values, terminations, lmbda, gamma)"},
 ]
 BENIGN = [
     {"id": "c07-b-gae-commuted", "file": _G, "find": "        gae = delta + gamma * lmbda * (1 - terminated) * gae", "replace": "        not_done = 1 - terminated\n        gae = delta + lmbda * gamma * gae * not_done"},
@@ -2741,4 +2911,22 @@ BENIGN = [
     {"id": "c07-b-rtg-while-truthy-counter", "file": _RE,
      "edits": [("    for r in reversed(rewards):\n        accumulated_return *= gamma\n        accumulated_return += r\n        discounted_returns.append(accumulated_return)\n",
                 "    remaining = len(rewards)\n    while remaining:\n        remaining -= 1\n        accumulated_return = accumulated_return * gamma\n        accumulated_return = accumulated_return + rewards[remaining]\n        discounted_returns.append(accumulated_return)\n")]},
+    # --- round 2
+    {"id": "c07-b-nstep-while-true-record", "file": _R,
+     "edits": [("import jax.numpy as jnp\n", "from typing import NamedTuple\n\nimport jax.numpy as jnp\n\n\nclass TruncatedReturn(NamedTuple):\n    value: jnp.ndarray\n    bootstrap_discount: jnp.ndarray\n"),
+               ("    for t in range(reward.shape[1]):\n        n_step_return += discount * reward[:, t]\n        discount *= gamma * (1 - terminated[:, t])\n    return n_step_return, discount",
+                "    k = 0\n    while True:\n        if k >= reward.shape[-1]:\n            break\n        r_k, alive_k = reward[:, k], 1 - terminated[:, k]\n        n_step_return = n_step_return + discount * r_k\n        discount = discount * gamma * alive_k\n        k = k + 1\n    return TruncatedReturn(n_step_return, discount)")]},
+    {"id": "c07-b-rtg-slots-reversed-range", "file": _RE, "find": _RTG_LOOP,
+     "replace": "    out = np.empty(len(rewards))\n    running = 0.0\n    for i in reversed(range(len(rewards))):\n        running = gamma * running + rewards[i]\n        out[i] = running\n    return out"},
+    {"id": "c07-b-rtg-slots-descending-range", "file": _RE, "find": _RTG_LOOP,
+     "replace": "    n = len(rewards)\n    out = n * [0.0]\n    running = 0.0\n    for i in range(n - 1, -1, -1):\n        running *= gamma\n        running += rewards[i]\n        out[i] = running\n    return np.asarray(out)"},
+    {"id": "c07-b-rtg-slots-counter-ne-zero", "file": _RE, "find": _RTG_LOOP,
+     "replace": "    left = len(rewards)\n    out = [None] * left\n    running = 0.0\n    while left != 0:\n        running = rewards[left - 1] + gamma * running\n        out[left - 1] = running\n        left -= 1\n    return np.array(out)"},
+    {"id": "c07-b-a2c-direct-vmap-local", "file": _A2, "find": "    gae_result = jax.vmap(get_gae_for_env, in_axes=(1, 1, 1, 1))(\n        rewards, values, all_next_values, terminations\n    )",
+     "replace": "    per_env_gae = jax.vmap(compute_gae, in_axes=(1, 1, 1, 1, None, None))\n    gae_result = per_env_gae(rewards, values, all_next_values, terminations, gamma, lmbda)"},
+    {"id": "c07-b-a2c-direct-vmap-module-constant", "file": _A2,
+     "edits": [("\n\ndef collect_trajectories(", "\n\nGAE_OVER_ENVS = jax.vmap(compute_gae, (1, 1, 1, 1, None, None))\n\n\ndef collect_trajectories("),
+               ("    gae_result = jax.vmap(get_gae_for_env, in_axes=(1, 1, 1, 1))(\n        rewards, values, all_next_values, terminations\n    )", "    gae_result = GAE_OVER_ENVS(rewards, values, all_next_values, terminations, gamma, lmbda)")]},
+    {"id": "c07-b-mrq-nstep-called-for-each-part", "file": _M, "find": "    n_step_return, discount = discounted_n_step_return(\n        reward, terminated, gamma\n    )",
+     "replace": "    n_step_return = discounted_n_step_return(reward, terminated, gamma)[0]\n    discount = discounted_n_step_return(reward=reward, gamma=gamma, terminated=terminated)[1]"},
 ]
